@@ -497,6 +497,10 @@ func (c *compiler) compileQueryUpdate(l, r *Query, op Operator) error {
 			}
 			c.append(&code{op: oppush, v: xs})
 			c.append(&code{op: opload, v: v})
+			if verifBareSetpath() {
+				c.append(&code{op: opcall, v: [3]any{verifSetpathBare, 2, "setpath"}})
+				return nil
+			}
 			c.append(&code{op: opcall, v: [3]any{internalFuncs["setpath"].callback, 2, "setpath"}})
 			return nil
 		}
